@@ -57,6 +57,9 @@ class Scheduler:
         self.status = SchedulerStatus.SLEEP
         self.ingest_observation = None
         self.provision_ingest = 0
+        # Machines promised to observations admitted in the current timestep
+        # that the cluster has not yet taken out of its available pool
+        self.pending_ingest = 0
         self.observation_queue = []
         self.schedule_status = ScheduleStatus.ONTIME
         self.events = []
@@ -169,12 +172,14 @@ class Scheduler:
 
         cluster_capacity = False
         pipeline_demand = pipelines[observation.name]['ingest_demand']
-        if self.cluster.check_ingest_capacity(pipeline_demand, max_ingest):
+        if self.cluster.check_ingest_capacity(
+                pipeline_demand + self.pending_ingest, max_ingest):
             if self.provision_ingest + pipeline_demand <= max_ingest:
                 cluster_capacity = True
                 # Only promise the machines if the observation will start
                 if buffer_capacity:
                     self.provision_ingest += pipeline_demand
+                    self.pending_ingest += pipeline_demand
                 LOGGER.debug(
                     "Cluster is able to process ingest for observation %s",
                     observation.name)
@@ -222,6 +227,7 @@ class Scheduler:
         time_left = observation.duration - 1
         while ingest_observation.status is not RunStatus.FINISHED:
             if ingest_observation.status is RunStatus.WAITING:
+                self.pending_ingest -= pipeline_demand
                 cluster_ingest = self.env.process(
                     self.cluster.provision_ingest_resources(pipeline_demand,
                         observation))
